@@ -264,6 +264,21 @@ theorem absent_command_status (fuel : Nat) (s : St) (w r a : Option Nat) :
       | none, none, none => 0 := by
   cases a <;> cases r <;> cases w <;> simp [execCmd, finishSimple] <;> split <;> rfl
 
+/-- an asynchronous list followed by `wait` never diverts the shell and leaves status 0: whatever the
+    list does — `exit`, `break`, `return`, a failing command under errexit — stays in its subshell;
+    only its output is seen -/
+theorem async_list_isolated (fuel : Nat) (s : St) (body : List Item)
+    (hf : (execList fuel (s.push .subshell) body).2 ≠ .outOfFuel) :
+    (execCmd (fuel+1) s (.asyncWait body)).2 = .continue_ ∧
+    (execCmd (fuel+1) s (.asyncWait body)).1 =
+      { s with status := 0,
+               trace := ((execList fuel (s.push .subshell) body).1.applyResult
+                          (execList fuel (s.push .subshell) body).2).trace } := by
+  simp only [execCmd]
+  generalize execList fuel (s.push .subshell) body = x at *
+  obtain ⟨c1, r⟩ := x
+  cases r <;> simp_all [St.applyErrexit]
+
 /-- `for v do …` iterates once per positional parameter of the current context: it is the loop over
     that many words -/
 theorem for_pos_is_for_params (fuel : Nat) (s : St) (body : List Item) :
